@@ -253,7 +253,7 @@ class SQLiteConnection(DBAPI):
         if not start:
             return "%s LIMIT %i" % (query, end)
         if end is None:
-            return "%s LIMIT 0 OFFSET %i" % (query, start)
+            return "%s LIMIT -1 OFFSET %i" % (query, start)
         return "%s LIMIT %i OFFSET %i" % (query, end - start, start)
 
     def createColumn(self, soClass, col):
